@@ -47,6 +47,26 @@ func init() {
 						}
 					}
 				}
+				if flag == nil {
+					// guard-clause form (`if !ok { return false }` before the hand-over): the flag is
+					// the bool local known to be true where postBlockChain is called
+					for _, gn := range fl.G.Nodes {
+						if gn.Ast == nil || !fl.Live(gn) {
+							continue
+						}
+						for _, call := range core.CallsIn(gn.Ast) {
+							if fnc := core.Callee(c.Info, call); fnc != nil && core.ShortName(fnc) == bcast+"(*broadcastProtocol).postBlockChain" {
+								for o, v := range fl.In[gn].Val {
+									if vv, isVar := o.(*types.Var); isVar && v == core.True && !vv.IsField() {
+										if b, isB := vv.Type().Underlying().(*types.Basic); isB && b.Kind() == types.Bool {
+											flag = o
+										}
+									}
+								}
+							}
+						}
+					}
+				}
 				label := fn + ": the hand-over to the blockchain is guarded by a success flag"
 				if flag == nil {
 					r.Fail(label, r.W.Pos(f.Node().Pos()), "postBlockChain is not inside `if <flag>`")
@@ -474,7 +494,8 @@ func init() {
 								return true
 							}
 							// failedJob[blockheight] = …  with blockheight the worker's own parameter
-							if id, isID := ast.Unparen(ix.Index).(*ast.Ident); isID {
+							// (through the parameter of an unnamed helper the block was moved into)
+							if id, isID := c.Through(ix.Index).(*ast.Ident); isID {
 								if v, isVar := c.Info.ObjectOf(id).(*types.Var); isVar && cl.Param(0) == v {
 									ok = true
 								}
